@@ -1,5 +1,8 @@
+mod c01;
 mod c14;
+mod gen;
 mod net;
+mod targeted;
 mod util;
 
 fn main() {
@@ -16,6 +19,11 @@ fn main() {
     std::panic::set_hook(Box::new(|_| {}));
     match prop {
         "C14" => c14::run(seed, n, &mut out),
+        "C01" => c01::run(seed, n, &mut out),
+        "C04" => targeted::run_c04(seed, n, &mut out),
+        "C05" => targeted::run_c05(seed, n, &mut out),
+        "C13" => targeted::run_c13(seed, n, &mut out),
+        "C15" => targeted::run_c15(seed, n, &mut out),
         _ => {
             eprintln!("unknown property {}", prop);
             std::process::exit(2);
